@@ -1,4 +1,5 @@
 import ZV.Model.C10
+import ZV.Generated.C11
 /-!
   Model of `verifier/walk.go`: `WalkChains` / `walkFromEdgeToRoot` / `continueWalking` /
   `canAddToChain`, over the graph state of `ZV.Model.C10`.
@@ -65,6 +66,47 @@ def startEdge (V : Ver) (g : Graph) (c : Cert) : Edge :=
 def walkChains (V : Ver) (g : Graph) (c : Cert) : List (List Cert) :=
   let s := startEdge V g c
   walk g (maxIntermediateCount - 1) [s.cert] s
+
+
+/-! ### small deterministic logic around the walk (each tied to the real function by its own T2 op)
+
+    * `canAddReason` — `canAddToChain` with the KIND of its error (`c11 can`, real function through the hook
+      `verifier.ZVCanAddToChain`);
+    * `chanCap` — the capacity of the channel `WalkChainsAsync` returns (`cap(out)`, observable): the
+      `opt.ChannelSize <= 0` default (`c11 async`);
+    * `validSigAfter` — the side effect on `c.ValidSignature`: set (never cleared) when the certificate is in the
+      graph or some candidate issuer node verifies it (`c11 async`). -/
+
+/-- `canAddToChain(c, certType, chain)`: 0 = nil, 1 = NotAuthorizedToSign, 2 = TooManyIntermediates;
+    only `len(chain)` is read -/
+def canAddReason (c : Cert) (isRoot : Bool) (chainLen : Nat) : Nat :=
+  if !isRoot && (!c.bcValid || !c.isCA) then 1
+  else if c.bcValid && decide (c.maxPathLen ≥ 0) && decide ((chainLen : Int) - 1 > c.maxPathLen) then 2
+  else 0
+
+/-- `if opt.ChannelSize <= 0 { opt.ChannelSize = 4 }; out := make(chan …, opt.ChannelSize)`: `cap(out)` -/
+def chanCap (n : Int) : Nat := if n ≤ 0 then 4 else n.toNat
+
+/-- `c.ValidSignature` after `WalkChainsAsync(c, …)` has returned, `before` being its value at the call -/
+def validSigAfter (V : Ver) (g : Graph) (c : Cert) (before : Bool) : Bool :=
+  match findEdge g.edges c.fp with
+  | some _ => true                                  -- "We already trust the signatures in the graph."
+  | none =>
+    match searchIssuer V g.nodes c.iss c.fp with
+    | some _ => true
+    | none => before
+
+/-- what a caller of `WalkChainsAsync(c, WalkOptions{ChannelSize: n})` can observe: the capacity of the channel,
+    the flag on `c`, and (draining the channel) the chains in sending order -/
+structure AsyncOut where
+  cap : Nat
+  validSig : Bool
+  chains : List (List Cert)
+  deriving Repr, DecidableEq
+
+/-- `(*Graph).WalkChainsAsync` -/
+def walkChainsAsync (V : Ver) (g : Graph) (c : Cert) (n : Int) (before : Bool) : AsyncOut :=
+  { cap := chanCap n, validSig := validSigAfter V g c before, chains := walkChains V g c }
 
 /-! ### histories on one graph: insertions and walks interleaved
 
